@@ -170,7 +170,7 @@ impl Interp {
     fn poll_until_pending(&mut self) -> Option<Ev<HarnessError>> {
         // Every data frame carries at least one byte of a finite history, so this ends; the bound
         // only guards against a body that yields empty frames forever.
-        let mut last = None;
+        let mut last;
         let mut empties = 0u32;
         loop {
             let ev = self.step(true)?;
